@@ -16,6 +16,21 @@ CLAIMED = {
             "DESIGN.md section 5, C15"),
 }
 
+CLAIMED["C06"] = (
+    "TLC enumeration of one-hole contexts (MC_Closure: every IR node type x child position x leaf kind x tx slot) replayed on find_params/find_queries/apply_*/reduce/resolve_tx + TLC trace validation (Trace_Staging)",
+    "TLC checks on the model that the generic walk reaches every generated position and that full substitution closes the term; "
+    "every generated template is run on the real crates and TLC validates the recorded Template/Refusals/Step/Final events: reported "
+    "sets vs two independent walks, empty residual after applying everything in three orders, MissingTxArg refusal per parameter.",
+    "Trusts TLC/Json, the driver's conversion tirj.rs (abstract term -> real tir::Tx) and its serde walk; bounds: wrapper depth 1 (quick) / 2 (thorough), 18 slots, 32 wrappers, 9 leaf kinds.",
+    "DESIGN.md section 5, C06")
+CLAIMED["C07"] = (
+    "TLC exploration of the staging machine's schedule graph (MC_Staging) over the slot x expression matrix, each path replayed on apply_args/apply_inputs/apply_fees/Node::apply/reduce + TLC trace validation against Tir.Eval (Trace_Staging)",
+    "TLC walks every order of the four stages allowed by operand availability with every placement of reduce, each complete path is "
+    "executed on the real functions and TLC validates every recorded run: per-step idempotence of reduce, final values equal to the "
+    "big-step meaning EvalTx(template, env), equal outcomes across all schedules of a template.",
+    "Trusts TLC/Json, Tir.Eval as oracle on the typed universe only (Unspec elsewhere), the driver's projection; bounds: 17 slot kinds, expression depth 1-2, one fixed environment.",
+    "DESIGN.md section 5, C07")
+
 ALL = ["C%02d" % i for i in range(1, 21)]
 
 NOT_YET = "check not built yet in this revision of /verif (planned: see DESIGN.md section 5); not claimed until its machinery exists and is quiet on the unchanged tree"
